@@ -30,7 +30,11 @@ def copy_repo(dst):
 
 def tests(repo):
     code, out = sh(f"{PY} -m pytest -q -p no:cacheprovider -n 8 2>&1 | tail -1", cwd=repo)
-    return out.strip().split("\n")[-1]
+    import re
+
+    line = out.strip().split("\n")[-1]
+    m = re.findall(r"(\d+) (failed|passed|error|errors)", line)
+    return ", ".join(f"{n} {k}" for n, k in m) or line
 
 
 def main():
